@@ -16,6 +16,14 @@ import (
 
 func collName(i int) string { return fmt.Sprintf("col%d", i+1) }
 
+// collName: the name of the i-th collection of this run.
+func (r *run) collName(i int) string {
+	if i < len(r.cfg.CollNames) && r.cfg.CollNames[i] != "" {
+		return r.cfg.CollNames[i]
+	}
+	return collName(i)
+}
+
 func (r *run) body(evs []Ev) {
 	w := r.w
 	r.mon = newMonitors()
@@ -26,14 +34,14 @@ func (r *run) body(evs []Ev) {
 		r.cfg.Colls = 1
 	}
 	for i := 0; i < r.cfg.Colls; i++ {
-		if err := w.createCollection(collName(i)); err != nil {
+		if err := w.createCollection(r.collName(i)); err != nil {
 			r.harness("create collection: %v", err)
 		}
-		r.colls = append(r.colls, collName(i))
+		r.colls = append(r.colls, r.collName(i))
 	}
 	w.mongo.Auto = true
 	for _, ac := range r.cfg.Actors {
-		a := w.newActor(collName(ac.Coll%r.cfg.Colls), ac.Realtime)
+		a := w.newActor(r.collName(ac.Coll%r.cfg.Colls), ac.Realtime)
 		r.connect(a)
 	}
 	w.mongo.Auto = false
